@@ -89,9 +89,10 @@ Inductive dropwhy := DTimeout | DFull | DNetErr | DMatchErr.
 Inductive ev :=
 | EArm                                    (* cx.Conn.SetReadDeadline(deadline) *)
 | EClear                                  (* cx.Conn.SetReadDeadline(time.Time{}) *)
-| ERun (depth idx availn : nat)           (* the handlers of route idx of the route list at nesting depth start *)
+| ERun (depth idx : nat) (b : list byte)  (* the handlers of route idx of the route list at nesting depth start; b = bytes available *)
 | ERead (depth idx : nat) (d : list byte) (* an HCons handler of that route obtained these bytes *)
-| EFallback (depth availn : nat)          (* Compile called its next handler *)
+| EFallback (depth : nat) (b : list byte) (* Compile called its next handler; b = bytes available *)
+| ESkip (depth idx : nat) (b : list byte) (* ghost: route idx passed over because of its cached routeNotMatched *)
 | EDrop (depth : nat) (w : dropwhy)       (* Compile logged and returned nil during matching *)
 | EHErr (depth idx : nat)                 (* a handler returned an error *)
 | EPanic (depth idx : nat).               (* a matcher panicked *)
@@ -168,78 +169,85 @@ Definition setst (m : stmap) (i : nat) (v : stat) : stmap := fun j => if j =? i 
 Definition is_no (o : option stat) := match o with Some SNo => true | _ => false end.
 Definition is_more (o : option stat) := match o with Some SMore => true | _ => false end.
 
-Section Chain.
-Variable sub : nat -> list route -> Z -> (st -> res) -> st -> res.   (* Compile at a given depth *)
-Variable depth idx : nat.
-
-(* the handler stack of one matched route; [next] is what the last handler calls *)
-Fixpoint chain (hs : list handler) (next : st -> res) (s : st) : res :=
-  match hs with
-  | [] => next s
-  | HTerm :: _ => Done s
-  | HFail :: _ => Done (emit (EHErr depth idx) s)
-  | HWrap :: r => chain r next s
-  | HCons k :: r =>
-      match read_full_st k s with
-      | (Some d, s') => chain r next (emit (ERead depth idx d) s')
-      | (None, s') => Done (emit (EHErr depth idx) s')
-      end
-  | HSub rs t :: r => sub (S depth) rs t (chain r next) s
-  end.
-End Chain.
-
-(* one pass of `for i, route := range routes` *)
+(* one pass either ends the invocation or yields the updated loop variables *)
 Inductive passres :=
 | PFinal (r : res)
 | PState (lm lnm : option nat) (stt : stmap) (s : st).
 
+Section Level.
+Variable sub : nat -> list route -> Z -> (st -> res) -> st -> res.   (* Compile one nesting level down *)
+Variable depth : nat.
+
+(* the handler stack of one matched route [idx]; [next] is what the last handler calls *)
+Fixpoint chain (idx : nat) (hs : list handler) (next : st -> res) (s : st) : res :=
+  match hs with
+  | [] => next s
+  | HTerm :: _ => Done s
+  | HFail :: _ => Done (emit (EHErr depth idx) s)
+  | HWrap :: r => chain idx r next s
+  | HCons k :: r =>
+      match read_full_st k s with
+      | (Some d, s') => chain idx r next (emit (ERead depth idx d) s')
+      | (None, s') => Done (emit (EHErr depth idx) s')
+      end
+  | HSub rs t :: r => sub (S depth) rs t (chain idx r next) s
+  end.
+
+(* one pass of `for i, route := range routes`, from route i on ([rest] = routes[i:]) *)
+Fixpoint pass (i : nat) (rest : list route) (lm lnm : option nat) (stt : stmap) (nm : bool) (s : st) {struct rest} : passres :=
+  match rest with
+  | [] => PState lm lnm stt s
+  | Route mss hs :: rest' =>
+    if leo i lm then pass (S i) rest' lm lnm stt nm s else
+    if is_no (stt i) && leo i lnm then pass (S i) rest' lm lnm stt nm (emit (ESkip depth i (avail s)) s) else
+    match anymatch mss (avail s) with
+    | More => if nm then pass (S i) rest' lm (Some i) (setst stt i SMore) nm s
+              else PState lm (Some i) (setst stt i SMore) s
+    | Fail => PFinal (Done (emit (EDrop depth DMatchErr) s))
+    | Panic => PFinal (Crash (emit (EPanic depth i) s))
+    | No => pass (S i) rest' lm lnm (setst stt i SNo) nm s
+    | Yes =>
+        let s1 := emit (ERun depth i (avail s)) (clear s) in
+        match chain i hs (fun st' => Cont st') s1 with
+        | Cont s2 => pass (S i) rest' (Some i) (Some i) (setst stt i SYes) nm s2
+        | r => PFinal r
+        end
+    end
+  end.
+
+(* `indetermined > 0` *)
+Definition undecided (n : nat) (lm : option nat) (stt : stmap) : bool :=
+  existsb (fun i => lto lm i && is_more (stt i)) (seq 0 n).
+
+(* the passes: label `loop:` .. `goto loop`; g bounds their number *)
+Fixpoint loop (rs : list route) (deadline : Z) (next : st -> res)
+              (g : nat) (lm lnm : option nat) (stt : stmap) (nm : bool) (s : st) {struct g} : res :=
+  match g with
+  | O => Exhausted s
+  | S g' =>
+    let s := arm deadline s in
+    match (if nm then prefetch s else inl s) with
+    | inr (w, s') => Done (emit (EDrop depth w) s')
+    | inl s' =>
+      match pass 0 rs lm lnm stt nm s' with
+      | PFinal r => r
+      | PState lm' lnm' stt' s'' =>
+          if (match lm' with Some j => S j =? length rs | None => length rs =? 0 end) then
+            let s3 := if last_exit_clears && (match lm' with None => true | _ => false end) then clear s'' else s'' in
+            next (emit (EFallback depth (avail s3)) s3)
+          else if undecided (length rs) lm' stt'
+          then loop rs deadline next g' lm' lnm' stt' true s''
+          else let s3 := clear s'' in next (emit (EFallback depth (avail s3)) s3)
+      end
+    end
+  end.
+End Level.
+
+(* RouteList.Compile(logger, timeout, next).Handle(cx); fuel bounds nesting and the number of passes *)
 Fixpoint compile (fuel : nat) (depth : nat) (rs : list route) (timeout : Z) (next : st -> res) (s0 : st) {struct fuel} : res :=
   match fuel with
   | O => Exhausted s0
-  | S fuel' =>
-    let n := length rs in
-    let deadline := (now (nt s0) + timeout)%Z in
-    let fix pass (i : nat) (rest : list route) (lm lnm : option nat) (stt : stmap) (nm : bool) (s : st) {struct rest} : passres :=
-      match rest with
-      | [] => PState lm lnm stt s
-      | Route mss hs :: rest' =>
-        if leo i lm then pass (S i) rest' lm lnm stt nm s else
-        if is_no (stt i) && leo i lnm then pass (S i) rest' lm lnm stt nm s else
-        match anymatch mss (avail s) with
-        | More => if nm then pass (S i) rest' lm (Some i) (setst stt i SMore) nm s
-                  else PState lm (Some i) (setst stt i SMore) s
-        | Fail => PFinal (Done (emit (EDrop depth DMatchErr) s))
-        | Panic => PFinal (Crash (emit (EPanic depth i) s))
-        | No => pass (S i) rest' lm lnm (setst stt i SNo) nm s
-        | Yes =>
-            let s1 := emit (ERun depth i (length (avail s))) (clear s) in
-            match chain (compile fuel') depth i hs (fun st' => Cont st') s1 with
-            | Cont s2 => pass (S i) rest' (Some i) (Some i) (setst stt i SYes) nm s2
-            | r => PFinal r
-            end
-        end
-      end in
-    let fix loop (g : nat) (lm lnm : option nat) (stt : stmap) (nm : bool) (s : st) {struct g} : res :=
-      match g with
-      | O => Exhausted s
-      | S g' =>
-        let s := arm deadline s in
-        match (if nm then prefetch s else inl s) with
-        | inr (w, s') => Done (emit (EDrop depth w) s')
-        | inl s' =>
-          match pass 0 rs lm lnm stt nm s' with
-          | PFinal r => r
-          | PState lm' lnm' stt' s'' =>
-              if (match lm' with Some j => S j =? n | None => n =? 0 end) then
-                let s3 := if last_exit_clears && (match lm' with None => true | _ => false end) then clear s'' else s'' in
-                next (emit (EFallback depth (length (avail s3))) s3)
-              else if existsb (fun i => lto lm' i && is_more (stt' i)) (seq 0 n)
-              then loop g' lm' lnm' stt' true s''
-              else let s3 := clear s'' in next (emit (EFallback depth (length (avail s3))) s3)
-          end
-        end
-      end in
-    loop fuel None None st0 false s0
+  | S fuel' => loop (compile fuel') depth rs (now (nt s0) + timeout)%Z next fuel None None st0 false s0
   end.
 
 (* Server.handle: compiled with nopHandler as next, then the connection is closed *)
@@ -251,7 +259,7 @@ End Net.
 
 Arguments off {net}. Arguments avail {net}. Arguments nt {net}. Arguments tr {net}.
 Arguments Done {net}. Arguments Cont {net}. Arguments Crash {net}. Arguments Exhausted {net}.
-Arguments res_st {net}. Arguments evs {net}.
+Arguments res_st {net}. Arguments evs {net}. Arguments PFinal {net}. Arguments PState {net}.
 
 (* ---------------------------------------------------------------- the untimed scripted network *)
 (* What the C02 engine's scripted net.Conn does: every Read pops one script item. *)
